@@ -29,15 +29,15 @@ sec='''## 10. As built
 
 ### 10.1 Inventory
 
-* `spec/` - 62 TLA+ modules, about 4,000 lines: the normative modules `Cues`, `Ops` (+ implementation layer `OpsImpl`), `Linear` (+`BigInt`),
+* `spec/` - 67 TLA+ modules, about 4,400 lines: the normative modules `Cues`, `Ops` (+ implementation layer `OpsImpl`), `Linear` (+`BigInt`),
   `TimeCodec`, `Scanner`, the five codec modules with their tables (`SrtCodec`, `VttCodec`, `SsaCodec`,
   `TtmlCodec`, `StlCodec` + `StlTables`), `Teletext` + `TeletextTables`, `Writers`, `Conc`, `Totality`,
-  `Session`; a bounded model per family (`OpsMC`, `OpsImplMC`, `MC_BigInt`, `MC_Linear`, `MC_TimeCodec`, `ScannerMC`,
-  `SrtMC`, `VttMC`, `SsaMC`, `TtmlMC`, `StlMC`, `TeletextMC`, `SessionMC`) with one `.cfg` per property family
+  `Session`, `StyleProp`; a bounded model per family (`OpsMC`, `OpsImplMC`, `MC_BigInt`, `MC_Linear`, `MC_TimeCodec`, `ScannerMC`,
+  `SrtMC`, `VttMC`, `SsaMC`, `TtmlMC`, `StlMC`, `TeletextMC`, `SessionMC`, `StylePropMC`) with one `.cfg` per property family
   and tier; a case generator per family (`Gen*.tla`: TLC writes ndjson through `ndJsonSerialize`, partitioned by
-  `GEN_PART/GEN_PARTS`); a trace specification per family (`Trace*.tla`, 15 of them).
-* `harness/` - Go module (`cmd/drive` with 17 sub-commands, `internal/*` builders, lexers, projections; about
-  8,700 lines), built from `/repo`'s working tree with `-tags verif` through a scratch `-modfile` on every run.
+  `GEN_PART/GEN_PARTS`); a trace specification per family (`Trace*.tla`, 16 of them).
+* `harness/` - Go module (`cmd/drive` with 18 sub-commands, `internal/*` builders, lexers, projections; about
+  9,500 lines), built from `/repo`'s working tree with `-tags verif` through a scratch `-modfile` on every run.
 * `check`, `checks.py`, `vlib.py` - orchestration: `./check <ID> [--tier quick|thorough] [--replay file]`,
   `./check selftest`. `mkmanifest.py` regenerates `MANIFEST.json`; `known_findings.json`; `seedtool.sh` and
   `seeded/` (seeded changes); `tools/` (table generators for `StlTables` / `TeletextTables`).
@@ -72,6 +72,31 @@ all), and every quick check was run on the unchanged tree with several `VERIF_SE
   rendering relation, a *reference decoder written from the format description* and model-checked against every
   rendering, and the writer contract; a counterexample there is an input, not a model trace of the reader's
   variables. Every verdict still comes from the real code.
+* **Beyond the listed properties: `StyleProp.tla`.** C07 names "cross-format attribute propagation" among its
+  mechanisms, but its statement only speaks of cue count, order, times and text. The mechanism has a module of its
+  own: an `SA` record is the observed part of one `StyleAttributes` value, a document is (cue-level `SA`, first
+  run's `SA`, the two STL metadata fields the writer consults), and `Read[f]` / `Write[f]` transcribe the five
+  readers' use of `propagateSRTAttributes`, `propagateWebVTTAttributes`, `propagateTTMLAttributes`,
+  `propagateSTLAttributes` and what the five writers emit from the result (emphasis flags and tag stacks, the
+  SubRip / TTML colour and the five WebVTT colour classes, cue alignment / line / position, STL justification, row
+  with its teletext clamp and the row-to-line-percentage rule). The deliberate deviations of the code are named in
+  the module header (WebVTT -> SubRip loses emphasis because no reader sets `WebVTTBold`; TTML -> SubRip loses the
+  colour while SubRip -> TTML keeps it; `{\\anN}` stays text; `WriteToSTL` justifies left at row 20 whatever the other
+  formats said). `StylePropMC` checks on all 4,925 (source, destination, look) triples that a written file is a
+  fixpoint of read-write, that a same-format conversion keeps the look, and the survival / loss table. `drive
+  styleprop` performs every one of those conversions on the real code; `TraceStyleProp` turns failure, a lost cue,
+  changed text or changed times into C07 verdicts, and a look that differs from `Read[g](Write[g](Read[f](x)))`
+  into `DRIFT` (0 on the current tree; 120 when `propagateSRTAttributes` is mutated - the stage notices, and the
+  check rightly stays green because the statement does not cover styling). The first model was wrong in one place
+  (rows 0 and 30 of a teletext-standard file are clamped to 1..23 by `validateVerticalPosition`); the trace
+  validation showed it in 32 events and the model was corrected - the intended direction of learning.
+* **`Writers.tla` keyed by map key.** A style map is now `key -> [id, attrs, css]` and the SSA writer's own table,
+  keyed by *ID* and filled while ranging over the map, is part of the model (`SsaTable`): with `SORTED = "names"`
+  (the tree after the first C19 repair) TLC finds the counterexample "two keys, one ID, different attributes";
+  `"keys"` (current tree) is order-independent, `"names"` is order-independent when IDs are distinct
+  (`MC_Writers_names_distinct.cfg`). This came from a sub-agent writing a behaviour-preserving refactoring, not
+  from the model: the lists of C19 had only used key = ID. Generators and model were widened first (3,473
+  violating events on the then-current tree), then the defect was repaired (`0f38ecf`).
 * **Hooks.** Built: `verif_on.go` / `verif_off.go` (scanner and block-reader wrappers, table fingerprint, event hook
   variable) and one-line `verifEmit` calls in the SRT, WebVTT, SSA and STL reader loops. They fire at the *top* of the
   iteration (the state left by the previous lines, which is what the model's `Obs` reports), keyed by the
